@@ -9,14 +9,25 @@ zero outside its rows / columns and that the block structure is k x k' (bilinear
 the as-coded constant it produces the counterexample (a linear form on a MixedElement gets a k x k
 structure whose rows repeat the k blocks).
 
+The sub-elements of a MixedElement carry <<physical, reference>> value sizes (VSub / USub): Lagrange
+(equal), symmetric 2x2 tensor (4 / 3), covariant Piola vector on a triangle mesh immersed in 3D
+(3 / 2).  The loop of FormSplitter.argument for replace_argument=False is transcribed (PosOff /
+CntOff / KeptPos: the rebuilt vector grows by the physical size of every sub-element and keeps
+obj[counter + d]); TLC checks SplitterKeepsOwn (the kept components are those of the requested
+sub-function, i.e. the block is the one replace_argument=True builds) in every universe, and
+exhibits the counterexample when the counter advances by the REFERENCE size (OffsetBy).
+
 Binding: every printed (form, predicted blocks) is rebuilt with real ufl objects -- MixedElement
 spaces with `split`, MixedFunctionSpace with TestFunctions / TrialFunctions -- and
-`extract_blocks(form)`, `extract_blocks(form, i, j)`, `extract_blocks(form, i)` (both settings of
-`replace_argument`) are called.  Every returned block is assembled at a point on ITS OWN arguments
-(the sub-space arguments the documentation promises; any other argument in a block is a dependence
-on a foreign sub-function), zero-padded into the full tensor and compared with the model's block and
-with the restriction of the really assembled input; the padded blocks must sum to the assembled
-input per integral key.
+`extract_blocks(form)`, `extract_blocks(form, i, j)`, `extract_blocks(form, i)` (each with both
+settings of `replace_argument`) and `formsplitter.extract_blocks(form, arity=..)` are called.
+Every returned block is assembled at a point on the arguments it may contain (new Arguments on the
+sub-element spaces; the sub-space arguments of a MixedFunctionSpace -- any other argument in a
+block is a dependence on a foreign sub-function; for MixedElement + replace_argument=False the
+original flattened arguments at ALL their components, so that a block that picks a component of
+another sub-function is observed), zero-padded into the full tensor and compared with the model's
+block and with the restriction of the really assembled input; the padded blocks must sum to the
+assembled input per integral key.
 """
 
 from __future__ import annotations
@@ -74,10 +85,10 @@ def universes(tier):
             # Piola mapped vector sub-element first, immersed mesh
             Uni("me-curl", "element", [(3,), ()], [(3,), ()], [f, X3], {"add", "mul", "inner"}, 2, EB, vkinds=["curl", "P"], ukinds=["curl", "P"], gdim=3,
                 exclude=noacts + ("v", "u", "v[0]", "v[2]", "u[0]", "u[1]")),
-            Uni("deep-me-sym", "element", [T, (2,), ()], [T, (2,), ()], [f, W2, G], deep_ops, 0, EB, keypairs=[(1, 2), (3, 4)], vkinds=["sym", "P", "P"], ukinds=["sym", "P", "P"], exclude=noacts, simulate=2000, depth=6),
-            Uni("deep-me-sym-rect", "element", [(), T, (2,)], [T, T, ()], [f, W2, G], deep_ops, 0, EB, keypairs=[(1, 2)], vkinds=["P", "sym", "P"], ukinds=["sym", "sym", "P"], exclude=noacts, simulate=1500, depth=5, nenv=1),
-            Uni("deep-me-curl", "element", [(3,), (), (3,)], [(), (3,), (3,)], [f, X3], deep_ops, 0, EB, keypairs=[(1, 2)], vkinds=["curl", "P", "P"], ukinds=["P", "curl", "curl"], gdim=3, exclude=noacts, simulate=1500, depth=5, nenv=1),
-            Uni("deep-me-refsize", "element", [(), T, (2,)], [(3,), ()], [f, W2, X3, G], deep_ops, 0, EB, keypairs=[(1, 2), (3, 4)], vkinds=["P", "sym", "P"], ukinds=["curl", "P"], gdim=3, exclude=noacts, simulate=2000, depth=6),
+            Uni("deep-me-sym", "element", [T, (2,), ()], [T, (2,), ()], [f, W2, G], deep_ops, 0, EB, keypairs=[(1, 2), (3, 4)], vkinds=["sym", "P", "P"], ukinds=["sym", "P", "P"], exclude=noacts, simulate=1000, depth=5, nenv=1),
+            Uni("deep-me-sym-rect", "element", [(), T, (2,)], [T, T, ()], [f, W2, G], deep_ops, 0, EB, keypairs=[(1, 2)], vkinds=["P", "sym", "P"], ukinds=["sym", "sym", "P"], exclude=noacts, simulate=700, depth=5, nenv=1),
+            Uni("deep-me-curl", "element", [(3,), (), (3,)], [(), (3,), (3,)], [f, X3], deep_ops, 0, EB, keypairs=[(1, 2)], vkinds=["curl", "P", "P"], ukinds=["P", "curl", "curl"], gdim=3, exclude=noacts, simulate=700, depth=5, nenv=1),
+            Uni("deep-me-refsize", "element", [(), T, (2,)], [(3,), ()], [f, W2, X3, G], deep_ops, 0, EB, keypairs=[(1, 2), (3, 4)], vkinds=["P", "sym", "P"], ukinds=["curl", "P"], gdim=3, exclude=noacts, simulate=1000, depth=5, nenv=1),
         ]
     if q:
         # 3 sub-spaces, two integrals, deeper terms: sampled programs, purely bilinear / linear by
